@@ -4,10 +4,11 @@
   `bad-op` for anything not understood (the harness treats that as its own bug).
 -/
 import Imeta.Driver.Tiff
+import Imeta.Driver.ImageType
 open Imeta
 
 def handlers : List (List String → Option String) :=
-  [Tiff.handle]
+  [Tiff.handle, ImageType.handle]
 
 def dispatch (line : String) : String :=
   let toks := (line.trimAscii.toString.splitOn " ").filter (· ≠ "")
